@@ -6,7 +6,7 @@
 (*    nodes (seq of [n, legs, involved, size, flops]),                     *)
 (*    leafs (seq of [t, legs, size]),                                      *)
 (*    stats [flops, write, size], mult, sliced_inputs, pre,                *)
-(*    peaks (seq of [seq, peak]), combo [factor, value], exec (seq of      *)
+(*    peaks (seq of [seq, peak]), combo [factor, value, limit], exec (seq of      *)
 (*    [n, lsize, rsize, psize]), preexec (seq of [t, size]),               *)
 (*    view [inputs, output, shapes, nslices] (what one slice looks like:   *)
 (*    get_inputs_sliced / get_output_sliced / get_shapes_sliced / nslices)]*)
@@ -68,6 +68,7 @@ Clause(c) ==
     ELSE IF c.stats.write # TotWrite(c.net, ch, c.sliced) THEN "total-write"
     ELSE IF c.stats.size # MaxSize(c.net, ch, c.sliced) THEN "max-size"
     ELSE IF c.combo.value # Combo(c.net, ch, c.sliced, c.combo.factor) THEN "combo"
+    ELSE IF c.combo.limit # Limit(c.net, ch, c.sliced, c.combo.factor) THEN "limit"
     ELSE IF c.sliced_inputs # SlicedInputs(c.net, c.sliced) THEN "sliced-inputs"
     ELSE IF c.pre # PreLeaves(c.net, c.sliced) THEN "preprocessing"
     ELSE IF c.view.inputs # [t \in DOMAIN c.net.inputs |-> SelectSeq(c.net.inputs[t], LAMBDA ix : ix \notin Sl)]
